@@ -254,6 +254,29 @@ func (x *Exec) ptrTerm(p *Ptr) *Term {
 		x.w.declFun("elemptr", "(Int "+string(x.w.IS)+") Int")
 		return App("elemptr", SInt, p.Ref, p.Elem)
 	}
+	if p.Ref != nil && p.Elem == nil && len(p.Path) > 0 {
+		// interior pointer to a field: an opaque, non-nil reference
+		name := "fptr"
+		for _, st := range p.Path {
+			if st.Index != nil {
+				unsupportedf("pointer %s escapes into a value", p)
+			}
+			name += fmt.Sprintf("_%d", st.Field)
+		}
+		name += "_" + typeKey(p.Base)
+		if _, ok := x.w.funs[name]; !ok {
+			x.w.declFun(name, "(Int) Int")
+			r := Atom("r", SInt)
+			x.w.axioms = append(x.w.axioms, Forall([]*Term{r}, Not(Eq(App(name, SInt, r), IntLit(0, SInt))), []*Term{App(name, SInt, r)}))
+		}
+		return App(name, SInt, p.Ref)
+	}
+	if p.Local != nil {
+		// address of a local: opaque non-nil constant
+		name := "lptr_" + smtName(p.Local.Comment)
+		c := x.w.declConst(name, SInt)
+		return c
+	}
 	unsupportedf("pointer %s escapes into a value", p)
 	return nil
 }
